@@ -156,6 +156,9 @@ def run(pid, tier_, replay=None):
     # 4b. white-box conformance: every recorded execution must be a behaviour of BatchProcessor.tla (BPTrace.tla)
     conf = bp.run_bptrace(merged, timeout=900 if quick else 3000)
 
+    # 4c. the processor's own instruments, read once per scenario, against the recorded steps (BPTelemetry.tla; drift only)
+    tel = bp.run_bptel(merged, timeout=900 if quick else 3000)
+
     # 5. results of the exhaustive runs
     mcs = [f.result() for f in mc_futs]
     pool.shutdown()
@@ -261,6 +264,8 @@ def run(pid, tier_, replay=None):
     for rj in conf["rejected"][:5]:
         print("DRIFT (not a verdict): BatchProcessor.tla does not explain event %s of execution %s (after %s)"
               % (json.dumps(rj["rejected_event"]), all_sc[rj["rejected_tr"] - 1]["id"], ",".join(rj["context"][-3:])))
+    for d in tel["drift"][:4]:
+        print("DRIFT (not a verdict): BPTelemetry.tla: instrument %s of execution %s is not what the recorded steps say" % (d[2], all_sc[d[0] - 1]["id"]))
     if split and split["drift"]:
         print("DRIFT (not a verdict): %d split cases where the real fragments differ from Split.tla's, e.g. %s" % (len(split["drift"]), json.dumps(split["drift"][0])))
     if rt:
